@@ -7,24 +7,24 @@
     checker decides earlier are absent), [Driver.compile] -- parser, checker, regex, automata --
     rejects [text g l] with the error of the matching kind.
 
-    Lifted here (all the classes check.rs decides): no call variant, varying command names, `/` in
-    the name, duplicate plain definition, unknown shell / non-command / duplicate definition for a
-    shell, cyclic definitions (both directions), space-separated literals inside a word.
+    Lifted here: all the classes check.rs decides -- no call variant, varying command names, `/`
+    in the name, duplicate plain definition, unknown shell / non-command / duplicate definition
+    for a shell, cyclic definitions (both directions), space-separated literals inside a word --
+    and, since the repair of finding N2, the class regex.rs decides: "placeholder inside a word
+    that something can follow" ([placeholder_not_last] <=> [DRegex UnboundedMatchable], both
+    directions, [C08b_placeholder]).
     NOT lifted, and why:
-    - "placeholder inside a word that something can follow" ([placeholder_not_last] =>
-      [DRegex UnboundedMatchable]): no theorem relates this tree-level predicate to the walk of
-      [Regex.check_ambiguities] over the follow-positions yet (only its totality and result shape,
-      [C02_check_ambiguities_result]); the class is judged by planted mistakes in c08.py;
     - "the same literal with two different descriptions" ([DAmb ConflictingDescriptions]): there is
       no predicate on the grammar for it in Spec/Mistakes.v; what is proved is on the automaton
       ([C08_ambiguity_accepts/rejects/decides] in Props/C08.v);
-    - the converse "a grammar free of all classes compiles" is proved up to these two classes and
-      the known converse finding N1 (juxtaposed literals `foo(bar)` rejected as SubwordSpaces):
-      [C08b_clean_verdict]; the full statement is kept as [C08b_clean_compiles_statement]. *)
+    - the converse "a grammar free of all classes compiles" is proved up to that class and the
+      known converse finding N1 (juxtaposed literals `foo(bar)` rejected as SubwordSpaces):
+      [C08b_clean_compiles]; the full statement is kept as [C08b_clean_compiles_statement]. *)
 From CG Require Import Base.Prelude Model.Ast Model.Lexer Model.Parser Model.Check Model.Regex.
 From CG Require Import Model.Dfa Model.Ambiguity Model.Driver Spec.Printer Spec.Choice Spec.Mistakes.
 From CG Require Import Proofs.CheckMistakes Proofs.CheckFront Proofs.CheckCycleSpec Proofs.CheckSpacesSpec.
 From CG Require Import Proofs.PipelineLayout Proofs.PipelineTotal Proofs.PipelineMistakes.
+From CG Require Proofs.PipelinePlaceholder.
 From CGgen Require Import Consts.
 
 (** the bridge: the text of a printable grammar goes through the pipeline like the grammar itself,
@@ -212,7 +212,53 @@ Check C08b_clean_verdict :
     (exists ae, compile pick fuel builtins (text g l) sh = Err (DAmb ae)).
 Print Assumptions C08b_clean_verdict.
 
-(** The full converse of the property (not proved: it needs the three missing links above). *)
+(** The class the regex stage decides: a placeholder inside a word that something can follow.
+    Unless the checker rejects the text for space-separated literals first (which includes the
+    juxtaposed literals of finding N1), the text ends in [DRegex UnboundedMatchable] exactly when
+    the class is present. *)
+Theorem C08b_placeholder :
+  forall pick fuel builtins g l sh,
+    wf g ->
+    no_call_variant g = false -> varying_names g = false -> slash_in_name g = false ->
+    duplicate_plain g = false ->
+    unknown_shell g = false -> non_command_for_shell g = false -> duplicate_for_shell g sh = false ->
+    specs_have_command_plain g = true -> cyclic g sh = false ->
+    (exists a b t, compile pick fuel builtins (text g l) sh = Err (DCheck (SubwordSpaces a b t))) \/
+    (placeholder_not_last builtins g sh = true <->
+     exists a b, compile pick fuel builtins (text g l) sh = Err (DRegex (UnboundedMatchable a b))).
+Proof. exact PipelinePlaceholder.lifted_placeholder. Qed.
+Check C08b_placeholder :
+  forall pick fuel builtins g l sh,
+    wf g ->
+    no_call_variant g = false -> varying_names g = false -> slash_in_name g = false ->
+    duplicate_plain g = false ->
+    unknown_shell g = false -> non_command_for_shell g = false -> duplicate_for_shell g sh = false ->
+    specs_have_command_plain g = true -> cyclic g sh = false ->
+    (exists a b t, compile pick fuel builtins (text g l) sh = Err (DCheck (SubwordSpaces a b t))) \/
+    (placeholder_not_last builtins g sh = true <->
+     exists a b, compile pick fuel builtins (text g l) sh = Err (DRegex (UnboundedMatchable a b))).
+Print Assumptions C08b_placeholder.
+
+(** A printable grammar with NO class of Spec/Mistakes.v compiles, or is rejected for one of the two
+    reasons that remain: juxtaposed literals (N1) or a description conflict. *)
+Theorem C08b_clean_compiles :
+  forall pick fuel builtins g l sh,
+    wf g -> fuel_covers fuel builtins (text g l) sh ->
+    present builtins g sh = [] -> specs_have_command_plain g = true ->
+    (exists vc, compile pick fuel builtins (text g l) sh = Ok vc) \/
+    (exists a b t, compile pick fuel builtins (text g l) sh = Err (DCheck (SubwordSpaces a b t))) \/
+    (exists ae, compile pick fuel builtins (text g l) sh = Err (DAmb ae)).
+Proof. exact PipelinePlaceholder.lifted_clean_compiles. Qed.
+Check C08b_clean_compiles :
+  forall pick fuel builtins g l sh,
+    wf g -> fuel_covers fuel builtins (text g l) sh ->
+    present builtins g sh = [] -> specs_have_command_plain g = true ->
+    (exists vc, compile pick fuel builtins (text g l) sh = Ok vc) \/
+    (exists a b t, compile pick fuel builtins (text g l) sh = Err (DCheck (SubwordSpaces a b t))) \/
+    (exists ae, compile pick fuel builtins (text g l) sh = Err (DAmb ae)).
+Print Assumptions C08b_clean_compiles.
+
+(** The full converse of the property (not proved: N1 and the description-conflict class stand in the way). *)
 Definition C08b_clean_compiles_statement : Prop :=
   forall pick fuel builtins g l sh,
     wf g -> fuel_covers fuel builtins (text g l) sh ->
@@ -251,3 +297,26 @@ Proof.
   vm_compute. repeat split; try reflexivity; try (eexists; reflexivity). intro H. discriminate H.
 Qed.
 Print Assumptions ex_C08b_inhabited.
+
+(** Non-vacuity of the placeholder class: the text of `cmd x<U>y;` is rejected by the regex stage;
+    the text of `cmd x(<U>|a(b|c));` (the shape of finding N2) has no class and compiles. *)
+Definition ex_ph_word (cs : list expr) : grammar :=
+  [ CallVariant "cmd" ex_sp (Subword (Sequence cs ex_sp) 0 ex_sp) ].
+Definition ex_ph_bad : grammar :=
+  ex_ph_word [Terminal "x" None 0 ex_sp; NontermRef "U" 0 ex_sp; Terminal "y" None 0 ex_sp].
+Definition ex_ph_n2 : grammar :=
+  ex_ph_word [Terminal "x" None 0 ex_sp;
+              Alternative [NontermRef "U" 0 ex_sp;
+                           Sequence [Terminal "a" None 0 ex_sp;
+                                     Alternative [Terminal "b" None 0 ex_sp; Terminal "c" None 0 ex_sp] ex_sp] ex_sp]
+                          ex_sp].
+Example ex_C08b_placeholder_inhabited :
+  forallb wf_stmt ex_ph_bad = true /\ present builtins ex_ph_bad Bash = [MPlaceholderNotLast]
+  /\ (exists a b, compile Subset.pick_first 4096 builtins (text ex_ph_bad lay1) Bash
+                  = Err (DRegex (UnboundedMatchable a b)))
+  /\ forallb wf_stmt ex_ph_n2 = true /\ present builtins ex_ph_n2 Bash = []
+  /\ is_ok (compile Subset.pick_first 4096 builtins (text ex_ph_n2 lay1) Bash) = true.
+Proof.
+  vm_compute. repeat split; try reflexivity; try (do 2 eexists; reflexivity).
+Qed.
+Print Assumptions ex_C08b_placeholder_inhabited.
